@@ -218,11 +218,11 @@ def gen_case(rnd):
 
 class EndToEnd(EnumContract):
     name = "e2e:Cube(response tabulated from respondents) vs first principles"
-    props = ("C01", "C02", "C03", "C04", "C05", "C06", "C09", "C10", "C16")
+    props = ("C01", "C02", "C03", "C04", "C05", "C06", "C09", "C10", "C12", "C16")
     bound = "2-D and 3-D responses over CAT / CAT_DATE / MR dimensions, <= 4 categories (missing ones anywhere) or <= 3 items, <= 25 respondents with fractional weights, random subtotals / differences / hide / prune / explicit order; seeded sample"
     clauses = (
         "counts", "unweighted-counts", "row-bases", "column-bases", "table-bases", "proportions",
-        "margins", "pruning", "column-index", "partition-restriction", "transposition",
+        "margins", "pruning", "column-index", "zscores", "partition-restriction", "transposition",
         "transform-invariance", "subtotal-merge", "shape-and-labels",
     )
 
@@ -301,6 +301,31 @@ class EndToEnd(EnumContract):
                     bad.add("margins")
             if not close(p.table_margin_range, [tb.min(), tb.max()]):
                 bad.add("margins")
+            # C12: adjusted standardized residual from the cell's own bases; p = 2(1 - Phi(|z|));
+            # NaN everywhere without two independent rows and columns
+            try:
+                from scipy.stats import norm
+
+                with np.errstate(all="ignore"):
+                    exp_c = rb * cb / tb
+                    var = exp_c * (1 - rb / tb) * (1 - cb / tb)
+                    z_exp = (cnt - exp_c) / np.sqrt(var)
+                got_z = np.asarray(p.zscores, dtype=float)
+                got_p = np.asarray(p.pvals, dtype=float)
+                if min(cnt.shape) < 2 or np.linalg.matrix_rank(cnt) < 2:
+                    if not (np.all(np.isnan(got_z)) and np.all(np.isnan(got_p))):
+                        bad.add("zscores")
+                else:
+                    ok_cells = np.isfinite(z_exp) & (np.abs(var) > 1e-9)  # exact-arithmetic 0/0 cells: float noise
+                    if got_z.shape != z_exp.shape or not np.allclose(got_z[ok_cells], z_exp[ok_cells], rtol=1e-6, atol=1e-9):
+                        bad.add("zscores")
+                    pe = 2 * (1 - norm.cdf(np.abs(z_exp)))
+                    if not np.allclose(got_p[ok_cells], pe[ok_cells], rtol=1e-6, atol=1e-9):
+                        bad.add("zscores")
+                    if np.any((got_p[ok_cells] < 0) | (got_p[ok_cells] > 1)):
+                        bad.add("zscores")
+            except Exception:
+                bad.add("zscores")
             # column index: 100 * column proportion / unconditional row share
             share = []
             for i in R:
